@@ -3,6 +3,10 @@ import MlModel.Lemmas.StrategyQueue
 import MlModel.Lemmas.Shard
 import MlModel.Lemmas.Rebatch
 import MlModel.Properties.C04
+import MlModel.Lemmas.DequeueCache
+import MlModel.Lemmas.PipeAggShard
+import MlModel.Lemmas.PipeAggInst
+import MlModel.Properties.C02
 /-!
 # C03 — results do not depend on the execution strategy
 
@@ -29,6 +33,16 @@ Theorems (all for every pipeline, dataset, thread count, shard count, partition 
 `C03_rebatch_partial`, `C03_rebatch_threads_partial`                   — with re-batching: rows and aggregates
                                                                          are preserved, batch boundaries are not
                                                                          (`Witness.C03_batch_boundaries`, finding F18).
+Round 7 (size-dependent behaviour; sharded x sliced):
+`C03_cache_exactly_once`, `C03_cache_num_steps`, `C03_cache_conservation`, `C03_cache_every_cap`, `C03_cache_policy`,
+`C03_cache_bounded_cap`, `C03_stage_runner_cached`     — the consumer-local cache of `DequeueIterator`
+                                                         (`Model/DequeueCache.lean`) delivers every `get_batch()`
+                                                         refill exactly once, for every refill size / cap;
+                                                         a bounded cache does so iff no refill exceeds it;
+`C03_shards_sliced_keys`, `C03_shards_sliced_state`, `C03_shards_sliced`, `C03_shards_sliced_result`, `C03_shards_sliced_make`,
+`C03_shards_sliced_groupby`, `C03_shards_sliced_whole_runs`, `C03_shards_strict_count`
+                                                       — `merge_states` over shard states whose slice-key
+                                                         sets differ (`Model/PipeAggShard.lean`) = the whole run.
 Not modelled (sampled by the check with real OS threads): the `ThreadPoolExecutor`/GIL scheduling, and
 the transport of the `AggregateResult` through `StopIteration`/`result_queue.returned` (final-state
 part of C04/C13).
@@ -309,6 +323,274 @@ theorem C03_rebatch_threads_partial (pre post : List (Op E)) (hpre : ∀ o ∈ p
 
 end Rebatch
 
+/-! ## Size-dependent behaviour: the `DequeueIterator` cache, for every `get_batch` cap -/
+
+section Cache
+open MlModel.DequeueCache
+
+/-- **Exactly-once delivery through the consumer-local cache** (the code as it is: an unbounded deque).
+Whatever the successive `get_batch()` calls return — any number of refills of any (non-zero) sizes — the
+`__next__` calls of `iter(queue)` hand on exactly the concatenation of the refills, in order, nothing
+lost, nothing twice, and then raise `StopIteration`. -/
+theorem C03_cache_exactly_once {α : Type} (batches : List (List α)) (hne : ∀ b ∈ batches, b ≠ []) :
+    delivered 0 none batches = batches.flatten ∧ (ending 0 none batches).1 = .stop := by
+  refine ⟨?_, ending_stop 0 none batches hne⟩
+  rw [delivered_eq 0 none batches hne]
+  exact flatMap_kept_zero batches
+
+/-- … and with `num_steps = k` exactly the first `k` of them. -/
+theorem C03_cache_num_steps {α : Type} (batches : List (List α)) (hne : ∀ b ∈ batches, b ≠ []) (k : Nat) :
+    delivered 0 (some k) batches = batches.flatten.take k := by
+  rw [delivered_eq 0 (some k) batches hne]
+  simp only [flatMap_kept_zero]
+
+/-- **Conservation, also when the iteration is cut short by `num_steps`.**  Delivered elements, then what is
+still in the cache, then the refills not yet fetched are exactly the refills, in order: the elements a
+`DequeueIterator(num_steps = k)` drops (Model/Piter.lean: `lost`) are the rest of its cache, nothing else. -/
+theorem C03_cache_conservation {α : Type} (batches : List (List α)) (hne : ∀ b ∈ batches, b ≠ [])
+    (numSteps : Option Nat) :
+    delivered 0 numSteps batches ++
+      ((ending 0 numSteps batches).2.cache ++ (ending 0 numSteps batches).2.pending.flatten) = batches.flatten := by
+  have h := delivered_rest 0 numSteps batches hne
+  rwa [flatMap_kept_zero, St.rest, flatMap_kept_zero] at h
+
+/-- **Every cap of one `get_batch`.**  A producer that ran completely ahead left `xs` in an unbounded queue;
+`get_batch()` then returns slices of `bm = max_batch_size` elements.  For EVERY `bm > 0` (4096 today) and
+every stream — shorter than, equal to, or many times `bm` — the iterator delivers `xs`; so do `k` stage
+queues in a row. -/
+theorem C03_cache_every_cap {α : Type} (bm : Nat) (hbm : 0 < bm) (xs : List α) :
+    throughQueue 0 bm none xs = xs ∧ (∀ k, throughQueue 0 bm (some k) xs = xs.take k) ∧
+    ∀ q, throughQueues 0 bm q xs = xs := by
+  have hne : ∀ b ∈ refills bm xs, b ≠ [] := fun b hb => (refills_mem xs b hb).1
+  have h1 : ∀ ys : List α, throughQueue 0 bm none ys = ys := by
+    intro ys
+    unfold throughQueue
+    rw [(C03_cache_exactly_once _ (fun b hb => (refills_mem ys b hb).1)).1, refills_flatten hbm]
+  refine ⟨h1 xs, ?_, ?_⟩
+  · intro k
+    unfold throughQueue
+    rw [C03_cache_num_steps _ hne, refills_flatten hbm]
+  · intro q
+    induction q generalizing xs with
+    | zero => rfl
+    | succ q ih =>
+      simp only [throughQueues, h1]
+      exact ih xs (fun b hb => (refills_mem xs b hb).1)
+
+/-- **Every cache policy of the model** (`collections.deque(maxlen)`, `0` = unbounded): what is delivered is
+the part of every refill the deque keeps (`kept`: its last `maxlen` elements); a bounded cache delivers
+everything **iff** no refill is longer than the cache. -/
+theorem C03_cache_policy {α : Type} (maxlen : Nat) (batches : List (List α)) (hne : ∀ b ∈ batches, b ≠ []) :
+    delivered maxlen none batches = batches.flatMap (kept maxlen) ∧
+    (0 < maxlen → (delivered maxlen none batches = batches.flatten ↔ ∀ b ∈ batches, b.length ≤ maxlen)) := by
+  have h := delivered_eq maxlen none batches hne
+  simp only [] at h
+  refine ⟨h, fun h0 => ?_⟩
+  rw [h]
+  constructor
+  · intro heq b hb
+    rcases Nat.lt_or_ge maxlen b.length with hlt | hge
+    · have := flatMap_kept_length_lt h0 ⟨b, hb, hlt⟩
+      rw [heq] at this
+      exact absurd this (Nat.lt_irrefl _)
+    · exact hge
+  · exact flatMap_kept_of_le
+
+/-- The two constants together: a cache of `maxlen ≥ bm` loses nothing, whatever the stream; a cache
+SMALLER than the cap of one `get_batch` loses elements as soon as the backlog exceeds it. -/
+theorem C03_cache_bounded_cap {α : Type} (maxlen bm : Nat) (h0 : 0 < maxlen) (hbm : 0 < bm) (xs : List α) :
+    (bm ≤ maxlen → throughQueue maxlen bm none xs = xs) ∧
+    (maxlen < bm → maxlen < xs.length → (throughQueue maxlen bm none xs).length < xs.length) := by
+  have hne : ∀ b ∈ refills bm xs, b ≠ [] := fun b hb => (refills_mem xs b hb).1
+  have hp := C03_cache_policy maxlen (refills bm xs) hne
+  constructor
+  · intro hle
+    unfold throughQueue
+    rw [(hp.2 h0).mpr (fun b hb => Nat.le_trans (refills_mem xs b hb).2 hle), refills_flatten hbm]
+  · intro hlt hlen
+    unfold throughQueue
+    rw [hp.1]
+    have hx : xs ≠ [] := by intro e; rw [e] at hlen; exact absurd hlen (Nat.not_lt_zero _)
+    have hfirst : xs.take bm ∈ refills bm xs := by
+      unfold refills
+      rw [Rebatch.sliced_cons_eq hbm hx]
+      exact List.mem_cons_self
+    have hlong : maxlen < (xs.take bm).length := by
+      rw [List.length_take]; omega
+    have := flatMap_kept_length_lt h0 ⟨_, hfirst, hlong⟩
+    rwa [refills_flatten hbm] at this
+
+/-- **Stage runner through the cache.**  `C03_stage_runner` identifies what the queue LTS hands to the
+consumer (`received`, the concatenation of the `get_batch` results) with what the next stage reads.  In
+the code a `DequeueIterator` sits between the two; whatever the boundaries of the `get_batch` results
+(`split`: any cut of the received list into non-empty refills), the stages see the sequential lists. -/
+theorem C03_stage_runner_cached (deliver : List E → List E) (hq : ∀ ys, QueueDelivers ys (deliver ys))
+    (split : List E → List (List E)) (hsplit : ∀ zs, (split zs).flatten = zs ∧ ∀ b ∈ split zs, b ≠ [])
+    (p : List (Stage E)) (xs : List E) :
+    staged (fun ys => delivered 0 none (split (deliver ys))) p xs = stageOuts p xs := by
+  have hid : ∀ ys, delivered 0 none (split (deliver ys)) = ys := by
+    intro ys
+    rw [(C03_cache_exactly_once _ (hsplit _).2).1, (hsplit _).1]
+    exact C03_queue_identity (hq ys)
+  have hfun : (fun ys => delivered 0 none (split (deliver ys))) = fun ys => ys := funext hid
+  rw [hfun]
+  induction p generalizing xs with
+  | nil => rfl
+  | cons s p ih => simp only [staged, stageOuts, ih]
+
+end Cache
+
+/-! ## Sharded × sliced: `merge_states` over shard states whose slice-key sets differ -/
+
+section Sliced
+open MlModel.PipeAgg
+
+variable {X S Rv : Type}
+
+/-- If every shard run succeeds, so does the run over the whole stream (the runs fail batch by batch). -/
+theorem C03_shards_sliced_whole_runs {P : Pipeline X S Rv} {parts : List (List Batch)} {sts : List (State S)}
+    (hruns : mapE (run P) parts = .ok sts) : ∃ st, run P parts.flatten = .ok st :=
+  whole_run_of_shards hruns
+
+/-- **No slice key dropped, none invented** (no law needed).  For every pipeline the builder accepts and
+EVERY partition of the stream into at least one shard — a slice value absent from the first, a middle or
+the last shard, disjoint key sets, empty shards — the merged state has an entry under a key iff the state of
+the whole run has one. -/
+theorem C03_shards_sliced_keys {P : Pipeline X S Rv} (hWF : P.WF) {parts : List (List Batch)} (hne : parts ≠ [])
+    {sts : List (State S)} (hruns : mapE (run P) parts = .ok sts)
+    {st : State S} (hwhole : run P parts.flatten = .ok st) (mk : MetricKey) :
+    mk ∈ AList.keys (mergeStates P sts) ↔ mk ∈ AList.keys st := by
+  rw [AList.mem_keys_iff, AList.mem_keys_iff, mergeStates_isSome hWF hne hruns hwhole mk]
+
+/-- **Sharded + merged = whole, entry by entry.**  … and under every key `(a.out, k)` of a lawful aggregate
+`a` (the unsliced key and every slice key) the merged entry is equivalent to the whole run's entry. -/
+theorem C03_shards_sliced_state {P : Pipeline X S Rv} (hWF : P.WF) {parts : List (List Batch)} (hne : parts ≠ [])
+    {sts : List (State S)} (hruns : mapE (run P) parts = .ok sts)
+    {st : State S} (hwhole : run P parts.flatten = .ok st)
+    {a : Agg X S Rv} (ha : a ∈ P.aggs) {Eqv : S → S → Prop} (hL : Lawful a.m Eqv) (k : SliceKey) :
+    OptEqv Eqv (AList.get? (mergeStates P sts) ⟨a.out, k⟩) (AList.get? st ⟨a.out, k⟩) :=
+  mergeStates_get? hWF hne hruns hwhole ha hL k
+
+/-- **The reported results agree.**  `get_result(merge_states(shard states))` and the whole run's
+`agg_result` report the same value (or both nothing) under every output key of every lawful aggregate and
+every slice key — hence, with C02_slices, the brute-force group-by over the whole data. -/
+theorem C03_shards_sliced {P : Pipeline X S Rv} (hWF : P.WF) {parts : List (List Batch)} (hne : parts ≠ [])
+    {sts : List (State S)} (hruns : mapE (run P) parts = .ok sts)
+    {st : State S} (hwhole : run P parts.flatten = .ok st)
+    {res res' : Result Rv} (hres : getResult P st = .ok res) (hres' : getResult P (mergeStates P sts) = .ok res')
+    {a : Agg X S Rv} (ha : a ∈ P.aggs) {Eqv : S → S → Prop} (hL : Lawful a.m Eqv) (k : SliceKey)
+    {i : Nat} (hi : i < a.out.length) :
+    AList.get? res' ⟨a.out[i], k⟩ = AList.get? res ⟨a.out[i], k⟩ := by
+  rw [getResult_get? hWF (nodup_keys_mergeStates P sts) hres' ha k hi,
+    getResult_get? hWF (nodup_keys_run hwhole) hres ha k hi]
+  have h := mergeStates_get? hWF hne hruns hwhole ha hL k
+  cases hm : AList.get? (mergeStates P sts) ⟨a.out, k⟩ with
+  | none =>
+    cases hw : AList.get? st ⟨a.out, k⟩ with
+    | none => rfl
+    | some t => rw [hm, hw] at h; exact absurd h id
+  | some s =>
+    cases hw : AList.get? st ⟨a.out, k⟩ with
+    | none => rw [hm, hw] at h; exact absurd h id
+    | some t =>
+      rw [hm, hw] at h
+      simp only [Option.bind_some]
+      exact Agg.outputAt_congr (hL.result_congr h) i
+
+/-- **The sharded execution as a whole** (no hypothesis on the merged side): if the run over the whole
+stream reports `res` and the shard runs succeed, then `get_result(merge_states(shard states))` — with or
+without the right `strict_states_cnt` — exists and agrees with `res` under every output key of every
+aggregate and every slice key (all aggregates lawful). -/
+theorem C03_shards_sliced_result {P : Pipeline X S Rv} (hWF : P.WF) {parts : List (List Batch)} (hne : parts ≠ [])
+    {sts : List (State S)} (hruns : mapE (run P) parts = .ok sts)
+    {res : Result Rv} (hrun : aggResult P parts.flatten = .ok res)
+    {Eqv : S → S → Prop} (hL : ∀ a ∈ P.aggs, Lawful a.m Eqv) :
+    ∃ res', shardedResult P parts = .ok res' ∧ shardedResult P parts parts.length = .ok res' ∧
+      ∀ a ∈ P.aggs, ∀ (k : SliceKey) (i : Nat) (hi : i < a.out.length),
+        AList.get? res' ⟨a.out[i], k⟩ = AList.get? res ⟨a.out[i], k⟩ := by
+  obtain ⟨st, hst, hres⟩ := aggResult_ok hrun
+  obtain ⟨res', hres'⟩ := getResult_mergeStates_ok hWF hne hruns hst hL hres
+  have hv : P.validate = .ok () := by
+    unfold aggResult at hrun
+    cases hv : P.validate with
+    | error e => simp [hv] at hrun
+    | ok u => rfl
+  have hlen : sts.length = parts.length := mapE_ok_length hruns
+  refine ⟨res', ?_, ?_, ?_⟩
+  · simp [shardedResult, hv, hruns, mergeStatesStrict, hres']
+  · simp [shardedResult, hv, hruns, mergeStatesStrict, hlen, hres']
+  · intro a ha k i hi
+    exact C03_shards_sliced hWF hne hruns hst hres hres' ha (hL a ha) k hi
+
+/-- **`make(shard=ShardConfig(i, k))` for `i = 0..k-1`** over a `SequenceDataSource` of the batches (the
+partition `SequenceDataSource.shard` cuts, Model/Shard.lean, C09) is such a partition: for every `k ≥ 1` the
+`k` shard runs + `merge_states` report the whole run's result.  (`k` larger than the number of batches gives
+empty shards; their states hold the unsliced entries only.) -/
+theorem C03_shards_sliced_make {P : Pipeline X S Rv} (hWF : P.WF) (bs : List Batch) (k : Nat) (hk : 1 ≤ k)
+    {sts : List (State S)} (hruns : mapE (run P) (shardParts (DS.root bs.length) k bs) = .ok sts)
+    {res : Result Rv} (hrun : aggResult P bs = .ok res)
+    {Eqv : S → S → Prop} (hL : ∀ a ∈ P.aggs, Lawful a.m Eqv) :
+    ∃ res', shardedResult P (shardParts (DS.root bs.length) k bs) k = .ok res' ∧
+      ∀ a ∈ P.aggs, ∀ (sk : SliceKey) (i : Nat) (hi : i < a.out.length),
+        AList.get? res' ⟨a.out[i], sk⟩ = AList.get? res ⟨a.out[i], sk⟩ := by
+  have hwf : (DS.root bs.length).WF := by
+    simp only [DS.WF, DS.root, DS.end, Option.getD_none]
+    omega
+  have hflat : (shardParts (DS.root bs.length) k bs).flatten = bs := by
+    have h := partition_elems (DS.root bs.length) hwf bs rfl k hk
+    rw [List.flatMap_def] at h
+    unfold shardParts
+    rw [h]
+    simp only [DS.elems, DS.root, DS.end, Option.getD_none]
+    rw [pySlice_nat bs 0 (bs.length : Int) (Int.le_refl 0) (by omega) (Int.le_refl _)]
+    simp
+  have hlen : (shardParts (DS.root bs.length) k bs).length = k := by simp [shardParts]
+  have hne : shardParts (DS.root bs.length) k bs ≠ [] := by
+    intro e; rw [e] at hlen; simp at hlen; omega
+  rw [← hflat] at hrun
+  obtain ⟨res', _, h2, h3⟩ := C03_shards_sliced_result hWF hne hruns hrun hL
+  rw [hlen] at h2
+  exact ⟨res', h2, h3⟩
+
+/-- **`strict_states_cnt`**: the merge raises `ValueError` exactly when a count was requested and a
+different number of states arrived — never a partial aggregate. -/
+theorem C03_shards_strict_count (P : Pipeline X S Rv) (sts : List (State S)) (n : Nat) :
+    (mergeStatesStrict P sts n = .error .value ↔ (n ≠ 0 ∧ sts.length ≠ n)) ∧
+    (¬ (n ≠ 0 ∧ sts.length ≠ n) → mergeStatesStrict P sts n = .ok (mergeStates P sts)) := by
+  unfold mergeStatesStrict
+  by_cases h : n ≠ 0 ∧ sts.length ≠ n
+  · simp [h]
+  · simp [h]
+
+/-- **Sharded + merged = brute-force group-by over the WHOLE data** (C03_shards_sliced composed with
+C02_slices).  For a row-level slicer in filter mode (single feature, cross, `within_values`, fan-out
+`slice_fn`) and every partition of the stream into shards: what `get_result(merge_states(shard states))`
+reports for slice `(sl.name, v)` is the aggregate applied once to exactly the rows of the whole stream that
+belong to the slice — wherever the shard boundaries fall, whichever shards have seen the value — and nothing
+if no row of the stream is in the slice. -/
+theorem C03_shards_sliced_groupby {P : Pipeline X S Rv} (hWF : P.WF) {parts : List (List Batch)} (hne : parts ≠ [])
+    {sts : List (State S)} (hruns : mapE (run P) parts = .ok sts)
+    {res res' : Result Rv} (hrun : aggResult P parts.flatten = .ok res)
+    (hres' : getResult P (mergeStates P sts) = .ok res')
+    {a : Agg X S Rv} (ha : a ∈ P.aggs) (hns : a.noSlice = false)
+    {Eqv : S → S → Prop} (hL : Lawful a.m Eqv) (hdec : RowWise a.dec)
+    {sl : Slicer} (hsl : sl ∈ P.slicers) {f : List Val → Except ErrKind (List (List Int))}
+    (hfn : sl.fn = .rows f) (hrep : sl.replace = none) (v : List Int) :
+    ∃ rowss, mapE a.rowsOf parts.flatten = .ok rowss ∧
+      ∀ i (hi : i < a.out.length),
+        AList.get? res' ⟨a.out[i], ⟨sl.name, v⟩⟩ =
+          if ∃ b ∈ parts.flatten, ∃ row ∈ sl.featRows b, inSlice f v row = true then
+            a.outputAt (a.m.ofBatch
+              (((parts.flatten.zip rowss).map fun p => groupRows f v (sl.featRows p.1) p.2).flatten)) i
+          else none := by
+  obtain ⟨st, hst, hres⟩ := aggResult_ok hrun
+  obtain ⟨rowss, hrows, hval⟩ := MlModel.C02.C02_slices hWF hrun ha hns hL hdec hsl hfn hrep v
+  refine ⟨rowss, hrows, fun i hi => ?_⟩
+  rw [C03_shards_sliced hWF hne hruns hst hres hres' ha hL ⟨sl.name, v⟩ hi]
+  exact hval i hi
+
+end Sliced
+
 /-! ## Non-vacuity (tests of the definitions, `decide`d) -/
 
 /-- a row-wise two-stage pipeline with aggregates: `x ↦ 2x` per row, then drop batches whose first
@@ -351,5 +633,18 @@ example : QueueDelivers [7] [7] :=
   ⟨1, false, false, 9, .getLoop, exCfg, exCfg.ths[1]'(by decide +kernel), by decide,
     MlModel.C04.reachable_replay _ _ (by decide +kernel), List.getElem?_eq_getElem _, by decide +kernel,
     by decide +kernel, by decide +kernel⟩
+
+/-- the cache hypotheses are met by real refills: `get_batch` slices of a backlog of 5 with cap 2 -/
+example : DequeueCache.refills 2 [10, 11, 12, 13, 14] = [[10, 11], [12, 13], [14]] ∧
+    DequeueCache.delivered 0 none (DequeueCache.refills 2 [10, 11, 12, 13, 14]) = [10, 11, 12, 13, 14] ∧
+    DequeueCache.delivered 0 (some 3) (DequeueCache.refills 2 [10, 11, 12, 13, 14]) = [10, 11, 12] := by decide +kernel
+
+/-- sharded x sliced on C02's example pipeline: slice `a = 2` occurs only in the LAST batch, the second batch
+is empty; shards `[b0] [b1] [b2]`: the shard runs succeed and `get_result` of the merged state exists -/
+example : (PipeAgg.shardedResult PipeAgg.exPipeline (PipeAgg.exStream.map ([·]))).toOption.isSome = true ∧
+    (PipeAgg.shardedResult PipeAgg.exPipeline (PipeAgg.exStream.map ([·]))).toOption.bind
+        (PipeAgg.AList.get? · ⟨"o", ⟨["a"], [2]⟩⟩)
+      = (PipeAgg.aggResult PipeAgg.exPipeline PipeAgg.exStream).toOption.bind
+        (PipeAgg.AList.get? · ⟨"o", ⟨["a"], [2]⟩⟩) := by decide
 
 end MlModel.C03
